@@ -117,9 +117,24 @@ def run_cases(chk, cases, tag, variant='seq', jobs=12, timeout=900):
         fl = [f for f in r['fail'] if f['kind'].startswith(OWNED)]
         if fl:
             failing.append((i, fl))
-    for (i, rc, text) in crashes:
+    # a crash / watchdog kill counts only if the case, re-run ALONE once, crashes or fails again
+    confirmed_crashes = 0
+    for k, (i, rc, text) in enumerate(crashes):
+        if k >= 40 or confirmed_crashes >= 5:
+            break
+        inpc = '%s/crash%s.%d.ndjson' % (work, tag + variant, i)
+        vf.write_ndjson(inpc, [texts[i]])
+        res2, cr2 = vf.drive(variant, args, inpc, inpc + '.out', timeout=900)
+        r2 = res2.get(0)
+        if not cr2 and r2 is not None and not [f for f in r2['fail'] if f['kind'].startswith(OWNED)]:
+            vf.log('[C14] unconfirmed crash/timeout (rc=%s) did not repeat: %s' % (rc, case_text(cases[i])[:200]))
+            chk.coverage['unconfirmed_crashes'] = chk.coverage.get('unconfirmed_crashes', 0) + 1
+            continue
+        confirmed_crashes += 1
+        if cr2:
+            rc, text = cr2[0][1], cr2[0][2]
         chk.violation('crash|' + progfam.crash_site(text) + '|' + cases[i]['kind'],
-                      'driver crashed or hung (rc=%s) on a valid leaf set: %s\n%s' % (rc, case_text(cases[i]), text[-1500:]),
+                      'driver crashed or hung (rc=%s, repeated when re-run alone) on a valid leaf set: %s\n%s' % (rc, case_text(cases[i]), text[-1500:]),
                       {'driver': args, 'variant': variant, 'behaviour': cases[i]})
     if failing:
         failing = failing[:100]
@@ -187,7 +202,7 @@ def main(tier):
     rc = rand_cases(tier, 'seq')
     groups = [rc[i::6] for i in range(6)]
     pool = ThreadPoolExecutor(max_workers=6)
-    rand_futs = [pool.submit(run_cases, chk, g, 'rand%d' % i) for i, g in enumerate(groups) if g]
+    rand_futs = [pool.submit(run_cases, chk, g, 'rand%d' % i, 'seq', 12, 2400) for i, g in enumerate(groups) if g]
     t0 = time.time()
     res = run_tlc(chk, jobs)
     vf.log('[C14] TLC phase %.0fs' % (time.time() - t0))
@@ -219,7 +234,7 @@ def main(tier):
         variants.append('par')
         n3, nt3 = run_cases(chk, cases, 'tlc', variant='par')
         rcp = rand_cases(tier, 'par')
-        futs = [pool.submit(run_cases, chk, g, 'rand%d' % i, 'par') for i, g in enumerate([rcp[i::4] for i in range(4)]) if g]
+        futs = [pool.submit(run_cases, chk, g, 'rand%d' % i, 'par', 12, 2400) for i, g in enumerate([rcp[i::4] for i in range(4)]) if g]
         total += n3 + sum(f.result()[0] for f in futs)
         rc = rc + rcp
     vf.log('[C14] driver phase %.0fs' % (time.time() - t0))
